@@ -32,8 +32,10 @@ CODECS = {
 def build_chunks(spec):
     r = random.Random(spec['dseed'])
     out = []
-    for n in spec['sizes']:
+    for j, n in enumerate(spec['sizes']):
         k = spec['kind']
+        if k == 'seq':
+            k = spec['seq'][j]
         if k == 'mixed':
             k = r.choice(['rand', 'zeros', 'text'])
         if k == 'rand':
@@ -68,7 +70,7 @@ class C16(Check):
     ASSUMPTIONS = ['zlib / zstandard C libraries are trusted as codecs; the property is about rxsci\'s streaming wrappers',
                    'reference decoders: gzip.decompress and zstandard.ZstdDecompressor.stream_reader']
     ANCHORS = ['rxsci/compression/z.py', 'rxsci/compression/zstd.py']
-    REQUIRED_TAGS = ['gzip', 'zstd', 'empty-list', 'empty-chunk-in-input', 'over-one-buffer', 'rand', 'zeros', 'multi-MiB-compressible', 'over-4MiB', 'compressed-size-is-a-block-size']
+    REQUIRED_TAGS = ['gzip', 'zstd', 'empty-list', 'empty-chunk-in-input', 'over-one-buffer', 'rand', 'zeros', 'multi-MiB-compressible', 'over-4MiB', 'compressed-size-is-a-block-size', 'mixed-compressibility']
     REQUIRED_OBSERVED = ['truncations_checked', 'rechunkings_checked', 'reference_decodes', 'compressed_streams_of_exactly_a_block_size']
 
     _ops = {}
@@ -111,6 +113,16 @@ class C16(Check):
                 sizes = [rng.choice([1 << 20, (1 << 20) + 13, 3 << 19]) for _ in range(rng.randint(2, 4))]
                 kind = ('zeros', 'text')[(k // 24) % 2]
                 codec = ('gzip', 'zstd')[(k // 48) % 2]
+            if k % 20 == 7:
+                # mixed compressibility: highly repetitive blocks (a few output bytes per 128 KiB) in front of, between and behind
+                # ordinary / incompressible data - small and large OUTPUT items alternate
+                codec = ('zstd', 'gzip')[(k // 20) % 2]
+                shape = [['zeros', 'rand'], ['text', 'zeros', 'text'], ['zeros', 'zeros', 'rand', 'zeros'], ['rand', 'zeros', 'rand']][(k // 40) % 4]
+                yield {'codec': codec, 'data': {'kind': 'seq', 'seq': shape, 'sizes': [rng.choice([131072, 262144, 300000]) if x == 'zeros' else rng.choice([5000, 70000])
+                                                                                   for x in shape], 'dseed': rng.randrange(1 << 30)},
+                       'rechunks': [{'mode': 'natural'}, {'mode': 'blob'}, {'mode': 'fixed', 'size': 4096}, {'mode': 'random', 'cseed': rng.randrange(1 << 30)}],
+                       'truncs': 'all', 'tseed': rng.randrange(1 << 30), 'tier': tier}
+                continue
             if k % 20 == 2:
                 # the COMPRESSED stream is exactly T bytes long, T a buffer size a streaming wrapper may re-block on
                 # (zstd's recommended input / output sizes, powers of two) or a multiple: the last byte of the frame is
@@ -182,6 +194,8 @@ class C16(Check):
         chunks = build_chunks(case['data'])
         data = b''.join(chunks)
         out.tags += [codec, case['data']['kind']]
+        if case['data']['kind'] == 'seq':
+            out.tags.append('mixed-compressibility')
         if not chunks:
             out.tags.append('empty-list')
         if any(len(c) == 0 for c in chunks):
